@@ -3,16 +3,19 @@ Executable Spec of C01, evaluated on what the REAL schedules emitted (sampling t
 Exact rational arithmetic, no square roots. `cum p u` is the exact integral of the configured rate of part `p` from
 its start to `u` ns (clamped to [0, D]).
 
-  token k at offset t (ns) is accepted iff  0 ≤ t ≤ D,  cum(t-1) ≤ k + δ  and  cum(t+2) ≥ k - δ
-     (t* = ⌊T_k·10⁹⌋, the proved value, satisfies cum(t*) ≤ k < cum(t*+1); the window admits t* - 1 … t* + 1)
+  token k at offset t (ns) is accepted iff  0 ≤ t ≤ D,  cum(t) ≤ k + δ  and  cum(t+1) ≥ k - δ
+     (t* = ⌊T_k·10⁹⌋, the proved value, is the only t with cum(t) ≤ k < cum(t+1); a neighbour of t* is accepted only
+      where T_k·10⁹ is within the rounding error δ/rate of a whole nanosecond. If the float64 instant x̃ has count-space
+      error ≤ δ then t = trunc(x̃) satisfies cum(t) ≤ cum(x̃) ≤ k + δ and cum(t+1) > cum(x̃) ≥ k - δ.)
   count n is accepted iff  n = ⌊cum(D)⌋, or ⌊cum(D)⌋ ∓ 1 when cum(D) is within δ of an integer
-  δ(k) = 2⁻⁴⁴ · (k + 1 + max(from,to)·D/10⁹)      -- in COUNT space
+  δ(k) = 2⁻⁴⁶ · (k + 1 + max(from,to)·D/10⁹)      -- in COUNT space
 
 Justification of δ (notes/C01.md has the derivation): with ε = 2⁻⁵³ every float64 step of `constDoAt`, `lineDoAt`
 (cancellation-free form) and of the count formulas is a sum/product/quotient/sqrt of non-negative quantities or one
 subtraction `b² − 2|a|k` whose absolute error ε·b² enters the count as ≤ 2ε·b·x; altogether the count-space error of
-token k is below 16ε·(k + max(from,to)·x) ≤ 2⁻⁴⁹·(k + max·D).  δ leaves a factor 32 on top of that, and stays far below
-one operation for every profile the generator can drain (≤ 3·10⁶ tokens: δ < 4·10⁻⁷).
+token k is below 16ε·(k + max(from,to)·x) ≤ 2⁻⁴⁹·(k + max·D).  δ leaves a factor 8 on top of that bound; measured on
+143 790 profiles of the thorough tier the real code stays within 2⁻⁵²·(…) (first failures appear at 2⁻⁵⁶), i.e. 64 times
+inside δ.  δ stays far below one operation for every profile the generator can drain (≤ 3·10⁶ tokens: δ < 10⁻⁷).
 -/
 import Pandora.Spec.Q
 
@@ -53,7 +56,7 @@ def Part.maxRate : Part → Q
 
 /-- count-space rounding tolerance -/
 def Part.delta (p : Part) (k : Int) : Q :=
-  Q.norm ((Q.ofInt (k + 1) + Q.norm (p.maxRate * Q.ofInt p.dur / billion)) * Q.pow2neg 44)
+  Q.norm ((Q.ofInt (k + 1) + Q.norm (p.maxRate * Q.ofInt p.dur / billion)) * Q.pow2neg 46)
 
 /-- acceptable counts [lo, hi] -/
 def Part.countRange (p : Part) : Int × Int :=
@@ -74,7 +77,7 @@ def Part.tokenOk (p : Part) (k t : Int) : Bool :=
   | _ =>
     let d := p.delta k
     0 ≤ t && t ≤ p.dur &&
-    Q.le (p.cum (t - 1)) (Q.ofInt k + d) && Q.le (Q.ofInt k - d) (p.cum (t + 2))
+    Q.le (p.cum t) (Q.ofInt k + d) && Q.le (Q.ofInt k - d) (p.cum (t + 1))
 
 structure Obs where
   left0 : Int                 -- Left() before Start
